@@ -37,7 +37,7 @@ func vfRunReinit(t *testing.T, out *vfh.Out, tf, window time.Duration) {
 	for attempt := 0; ; attempt++ {
 		line, late := vfRunReinitOnce(t, tf, window)
 		if !late || attempt == 2 {
-			out.Line(new(vfh.Toks).S("rein").I(int64(tf)).I(int64(window)).String(), line)
+			out.Line(new(vfh.Toks).S(vfReinOp).I(int64(tf)).I(int64(window)).String(), line)
 			out.Flush()
 			return
 		}
@@ -401,6 +401,10 @@ func verifLinkFlap(t *testing.T, r *vfh.Rand, out *vfh.Out) {
 		vfRunLinkFlap(t, out, r.Bool(), time.Duration(r.Range(1, int64(60*time.Second)))|1, r.Intn(5))
 	}
 }
+
+// vfReinOp: the operation name of the re-initialisation scenario ("rein": C06's oracle — the instants;
+// "rein5": C05's — the interface is re-established and the loop's requests are transmitted again)
+var vfReinOp = "rein"
 
 func verifReinit(t *testing.T, r *vfh.Rand, out *vfh.Out) {
 	for _, tf := range []time.Duration{1, 500 * time.Millisecond, 2900 * time.Millisecond, 3*time.Second + 1, 3100 * time.Millisecond, 10 * time.Second, 250 * time.Second} {
